@@ -42,7 +42,7 @@ def case_strategy(max_ops=25):
         "how": st.sampled_from(["copy", "copy", "deepcopy", "pickle"]),
         "edits": st.one_of(st.lists(st.tuples(st.sampled_from(["orig", "copy", "copy"]), ops.op_strategy(names, weights)), min_size=1, max_size=max_ops),
                            st.lists(st.tuples(st.sampled_from(["orig", "copy", "copy"]), ops.op_strategy(names, weights)), min_size=8, max_size=max_ops)),
-        "obj_ops": st.lists(st.tuples(st.sampled_from(["rcopy", "mcopy", "add", "sub", "mul", "radd"]), st.integers(0, 20), st.integers(0, 20),
+        "obj_ops": st.lists(st.tuples(st.sampled_from(["rcopy", "mcopy", "add", "sub", "mul", "radd", "sum1", "add0", "mul1"]), st.integers(0, 20), st.integers(0, 20),
                                       st.sampled_from([2, -1, 0.5])), max_size=3),
     })
 
@@ -83,6 +83,12 @@ def check_object_ops(model, obj_ops):
                 res = sum([r1, r2])
             elif kind == "sub":
                 res = r1 - r2
+            elif kind == "sum1":  # lumping a one-step pathway: sum() starts with 0 + r
+                res = sum([r1])
+            elif kind == "add0":
+                res = r1 + 0 if j % 2 else 0 + r1
+            elif kind == "mul1":
+                res = r1 * 1
             else:
                 res = r1 * k
         except Exception as e:  # noqa: BLE001
